@@ -22,6 +22,7 @@ import (
 	"net"
 	"os"
 	"sync"
+	"sync/atomic"
 	"syscall"
 	"testing"
 	"time"
@@ -212,6 +213,7 @@ type c06Result struct {
 	RelayPanic string    `json:"relay_panic,omitempty"`
 	ElapsedMs float64    `json:"elapsed_ms"`
 	ArmedLeft bool       `json:"armed_left"` // a read deadline is still armed after sniffing
+	Slow      bool       `json:"slow,omitempty"` // a generous harness deadline was hit: the case must be retried
 	Steps     []c06Step  `json:"steps,omitempty"`
 }
 
@@ -515,9 +517,14 @@ type c06AsyncConn struct {
 	paused   chan struct{}
 	once     sync.Once
 	ponce    sync.Once
+	holder   atomic.Bool
+	waiting  atomic.Int32
 }
 
 func (c *c06AsyncConn) Read(p []byte) (int, error) {
+	if c.holder.Load() {
+		c.waiting.Add(1) // a second reader queues behind the outstanding read (like the fd read lock)
+	}
 	c.mu.Lock()
 	defer c.mu.Unlock()
 	passed := false
@@ -534,8 +541,10 @@ func (c *c06AsyncConn) Read(p []byte) (int, error) {
 		switch st {
 		case "pause":
 			c.idx++
+			c.holder.Store(true)
 			c.ponce.Do(func() { close(c.paused) })
 			<-c.release
+			c.holder.Store(false)
 			passed = true
 			continue
 		case "eof":
@@ -560,23 +569,60 @@ func (c *c06AsyncConn) SetDeadline(t time.Time) error      { return os.ErrNoDead
 func (c *c06AsyncConn) SetReadDeadline(t time.Time) error  { return os.ErrNoDeadline }
 func (c *c06AsyncConn) SetWriteDeadline(t time.Time) error { return os.ErrNoDeadline }
 
+// c06GateCtx replaces the sniffer's deadline context in the async cases: the "deadline" fires when
+// the harness closes done, i.e. exactly when the scripted reader has reached its pause - an event,
+// not a wait, so machine load cannot reorder it.  Err() is context.DeadlineExceeded as for a real
+// deadline context.
+type c06GateCtx struct{ done chan struct{} }
+
+func (c *c06GateCtx) Deadline() (time.Time, bool) { return time.Time{}, false }
+func (c *c06GateCtx) Done() <-chan struct{}       { return c.done }
+func (c *c06GateCtx) Err() error {
+	select {
+	case <-c.done:
+		return context.DeadlineExceeded
+	default:
+		return nil
+	}
+}
+func (c *c06GateCtx) Value(key any) any { return nil }
+
+func c06Scale() time.Duration {
+	switch os.Getenv("VERIF_TIME_SCALE") {
+	case "4":
+		return 4
+	case "16":
+		return 16
+	}
+	return 1
+}
+
+// c06WaitFor polls cond (an event gate on state the code under test does not signal) with a generous deadline.
+func c06WaitFor(cond func() bool, limit time.Duration) bool {
+	t0 := time.Now()
+	for !cond() {
+		if time.Since(t0) > limit*c06Scale() {
+			return false
+		}
+		time.Sleep(200 * time.Microsecond)
+	}
+	return true
+}
+
 func c06RunAsync(cs c06Case) (res c06Result) {
 	conn := &c06AsyncConn{release: make(chan struct{}), lateDone: make(chan struct{}), paused: make(chan struct{})}
-	hasPause := false
 	for _, e := range cs.Script {
 		conn.events = append(conn.events, c06Hex(e.D))
 		conn.status = append(conn.status, e.St)
-		if e.St == "pause" {
-			hasPause = true
-		}
 	}
-	to := time.Duration(cs.TimeoutMs) * time.Millisecond
-	if to <= 0 {
-		to = 15 * time.Millisecond
-	}
-	sn := NewConnSniffer(conn, to)
+	const generous = 30 * time.Second
+	sn := NewConnSniffer(conn, time.Hour)
+	gate := &c06GateCtx{done: make(chan struct{})}
+	sn.Sniffer.ctxOnce.Do(func() { sn.Sniffer.ctx, sn.Sniffer.cancel = gate, func() {} })
 	t0 := time.Now()
-	func() {
+	sniffDone := make(chan struct{})
+	go func() {
+		defer close(sniffDone)
 		defer func() {
 			if r := recover(); r != nil {
 				res.Panic = fmt.Sprint(r)
@@ -590,20 +636,27 @@ func c06RunAsync(cs c06Case) (res c06Result) {
 			res.Err = err.Error()
 		}
 	}()
+	outstanding := false
+	select {
+	case <-sniffDone:
+	case <-conn.paused:
+		// the client is silent and a read of the sniffer is outstanding: now the deadline passes
+		outstanding = true
+		close(gate.done)
+		select {
+		case <-sniffDone:
+		case <-time.After(generous * c06Scale()):
+			res.Class, res.RelaySt, res.Slow = "hang", "blocked", true
+			close(conn.release)
+			return
+		}
+	case <-time.After(generous * c06Scale()):
+		res.Class, res.RelaySt, res.Slow = "hang", "blocked", true
+		close(conn.release)
+		return
+	}
 	res.ElapsedMs = float64(time.Since(t0).Microseconds()) / 1000
 	res.DataErr = sn.Sniffer.dataError != nil
-	outstanding := false
-	if hasPause {
-		select {
-		case <-conn.paused:
-			select {
-			case <-conn.lateDone:
-			default:
-				outstanding = true
-			}
-		default:
-		}
-	}
 	res.ArmedLeft = outstanding // reused: a read of the sniffer is still outstanding
 	if res.Panic != "" {
 		close(conn.release)
@@ -612,9 +665,9 @@ func c06RunAsync(cs c06Case) (res c06Result) {
 	}
 	select {
 	case <-sn.Sniffer.dataReady:
-	case <-time.After(time.Second):
+	case <-time.After(generous * c06Scale()):
 		close(conn.release)
-		res.RelaySt = "blocked"
+		res.RelaySt, res.Slow = "blocked", true
 		return
 	}
 	p := cs.P
@@ -622,65 +675,96 @@ func c06RunAsync(cs c06Case) (res c06Result) {
 		p = 32 << 10
 	}
 	var out bytes.Buffer
+	var relaySt, relayPanic string
 	drain := func() {
 		defer func() {
 			if r := recover(); r != nil {
-				res.RelayPanic = fmt.Sprint(r)
-				res.RelaySt = "panic"
+				relayPanic = fmt.Sprint(r)
+				relaySt = "panic"
 			}
 		}()
 		switch cs.Drain {
 		case "prefix":
 			out.Write(sn.TakeRelayPrefix())
 			_, err := sn.CopyRelayRemainder(&out, make([]byte, p))
-			res.RelaySt = c06ErrStatus(err)
+			relaySt = c06ErrStatus(err)
 		case "writeto":
 			_, err := sn.WriteTo(&out)
-			res.RelaySt = c06ErrStatus(err)
+			relaySt = c06ErrStatus(err)
 		default:
 			buf := make([]byte, p)
 			for i := 0; i < 1<<20; i++ {
 				n, err := sn.Read(buf)
 				out.Write(buf[:n])
 				if err != nil {
-					res.RelaySt = c06ErrStatus(err)
+					relaySt = c06ErrStatus(err)
 					break
 				}
 			}
 		}
 	}
 	if !outstanding {
-		if hasPause {
-			close(conn.release)
-		}
 		drain()
 	} else if cs.Sched == "late" {
-		// the client's next bytes arrive before the relay touches the sniffer
+		// the client's next bytes arrive before the relay touches the sniffer: release the outstanding
+		// read, wait until it has returned AND ReadFromOnce has published the new length
+		before := sn.Sniffer.buf.Len()
+		next := 0
+		if conn.idx < len(conn.events) { // idx is stable: the only reader is parked in the pause
+			next = len(conn.events[conn.idx])
+		}
 		close(conn.release)
-		<-conn.lateDone
-		time.Sleep(3 * time.Millisecond)
+		okGate := true
+		select {
+		case <-conn.lateDone:
+		case <-time.After(generous * c06Scale()):
+			okGate = false
+		}
+		if okGate && next > 0 {
+			okGate = c06WaitFor(func() bool { return sn.Sniffer.buf.Len() >= before+1 }, generous)
+		} else if okGate {
+			time.Sleep(2 * time.Millisecond) // nothing observable changes on a late EOF
+		}
+		if !okGate {
+			res.RelaySt, res.Slow = "blocked", true
+			return
+		}
 		drain()
 	} else {
-		// the relay takes the buffer first; then the client goes on
+		// the relay takes the buffer first; the client goes on only once the relay has either finished
+		// or is queued behind the outstanding read on the connection
 		done := make(chan struct{})
 		go func() { drain(); close(done) }()
-		time.Sleep(5 * time.Millisecond)
+		finished := false
+		okGate := c06WaitFor(func() bool {
+			select {
+			case <-done:
+				finished = true
+				return true
+			default:
+				return conn.waiting.Load() >= 1
+			}
+		}, generous)
 		close(conn.release)
-		select {
-		case <-done:
-		case <-time.After(2 * time.Second):
-			res.RelaySt = "blocked"
+		if okGate && !finished {
+			select {
+			case <-done:
+			case <-time.After(generous * c06Scale()):
+				okGate = false
+			}
 		}
 		select {
 		case <-conn.lateDone:
-		case <-time.After(time.Second):
+		case <-time.After(generous * c06Scale()):
+			okGate = false
 		}
-		time.Sleep(2 * time.Millisecond)
+		if !okGate {
+			res.RelaySt, res.Slow = "blocked", true
+			return
+		}
 	}
+	res.RelaySt, res.RelayPanic = relaySt, relayPanic
 	res.Relay = hex.EncodeToString(out.Bytes())
-	if sn.Sniffer.buf != nil {
-		res.Buf = hex.EncodeToString(sn.Sniffer.buf.Bytes()) // bytes left in the sniffer buffer after the relay finished
-	}
 	return
 }
 
